@@ -39,7 +39,7 @@ impl<const N: usize, P: Pad> Holder<N, P> {
         if !P::HEAP {
             alloc::set_paint(paint);
         }
-        let b = CircularBuffer::boxed();
+        let b = cb_boxed::<N, P>();
         alloc::set_paint(None);
         Holder::Boxed(b)
     }
@@ -68,6 +68,30 @@ impl<const N: usize, P: Pad> Holder<N, P> {
     }
 }
 
+/// `CircularBuffer::boxed()` where the crate offers it (feature alloc), a plain Box otherwise
+pub fn cb_boxed<const N: usize, P: Pad>() -> Box<Buf<N, P>> {
+    #[cfg(feature = "has-alloc")]
+    {
+        CircularBuffer::boxed()
+    }
+    #[cfg(not(feature = "has-alloc"))]
+    {
+        Box::new(CircularBuffer::new())
+    }
+}
+
+/// `to_vec()` where the crate offers it (feature alloc), element-wise clones otherwise
+pub fn cb_to_vec<const N: usize, P: Pad>(buf: &Buf<N, P>) -> Vec<TokG<P>> {
+    #[cfg(feature = "has-alloc")]
+    {
+        buf.to_vec()
+    }
+    #[cfg(not(feature = "has-alloc"))]
+    {
+        buf.iter().cloned().collect()
+    }
+}
+
 // ---------------------------------------------------------------------------------------------
 // Geometry: where the slots are, measured from element addresses
 // ---------------------------------------------------------------------------------------------
@@ -93,7 +117,7 @@ fn calibrate<const N: usize, P: Pad>() -> Option<usize> {
     }
     // uses its own ledger ids; callers calibrate before a case starts or accept the id shift
     let esz = mem::size_of::<TokG<P>>();
-    let mut b: Box<Buf<N, P>> = CircularBuffer::boxed();
+    let mut b: Box<Buf<N, P>> = cb_boxed::<N, P>();
     for _ in 0..N {
         b.push_back(TokG::new(0));
     }
@@ -461,9 +485,9 @@ impl<const N: usize, P: Pad> Env<N, P> {
     }
 }
 
-struct FeedIter<'a, P: Pad> {
-    items: &'a mut [Option<TokG<P>>],
-    pos: usize,
+pub struct FeedIter<'a, P: Pad> {
+    pub items: &'a mut [Option<TokG<P>>],
+    pub pos: usize,
 }
 impl<P: Pad> Iterator for FeedIter<'_, P> {
     type Item = TokG<P>;
@@ -519,9 +543,9 @@ macro_rules! with_range {
             }
             (s, e) => {
                 let cv = |b: B| match b {
-                    B::I(x) => Bound::Included(x),
-                    B::E(x) => Bound::Excluded(x),
-                    B::U => Bound::Unbounded,
+                    B::I(x) => std::ops::Bound::Included(x),
+                    B::E(x) => std::ops::Bound::Excluded(x),
+                    B::U => std::ops::Bound::Unbounded,
                 };
                 let $rr = (cv(s), cv(e));
                 $body
@@ -816,7 +840,7 @@ fn exec_inner<const N: usize, P: Pad>(buf: &mut Buf<N, P>, op: &Op, env: &mut En
             Ret::Ids(collect_refs(a.iter().chain(b.iter()), &mut env.ref_addrs))
         }
         Op::ToVec => {
-            let v = cb!(buf.to_vec());
+            let v = cb!(cb_to_vec(buf));
             let _s = Suspend::new();
             let mut ids = Vec::new();
             for t in v {
@@ -858,7 +882,7 @@ fn exec_inner<const N: usize, P: Pad>(buf: &mut Buf<N, P>, op: &Op, env: &mut En
         Op::EqSelf => {
             let (c, v) = {
                 let _s = Suspend::new();
-                (rotated_clone(buf), buf.to_vec())
+                (rotated_clone(buf), cb_to_vec(buf))
             };
             let bb: &Buf<N, P> = &*buf;
             let r = cb!(*bb == *c) && cb!(*c == *bb) && cb!(*bb == v[..]) && cb!(*bb == &v[..]);
@@ -884,7 +908,7 @@ fn exec_inner<const N: usize, P: Pad>(buf: &mut Buf<N, P>, op: &Op, env: &mut En
 
 /// an equal buffer in a different layout (front moved by one slot when there is room)
 fn rotated_clone<const N: usize, P: Pad>(buf: &Buf<N, P>) -> Box<Buf<N, P>> {
-    let mut c: Box<Buf<N, P>> = CircularBuffer::boxed();
+    let mut c: Box<Buf<N, P>> = cb_boxed::<N, P>();
     if N > 0 {
         c.push_back(TokG::new(0));
         drop(c.pop_front());
@@ -977,6 +1001,8 @@ pub struct StepOut {
     pub relocations: usize,
     pub pre_layout: Option<(usize, usize)>,
     pub resynced: bool,
+    pub events: Vec<String>,
+    pub post: Vec<(u64, u32)>,
 }
 
 fn sig(op: &Op, n: usize, lay: &'static str, kind: &str) -> String {
@@ -992,8 +1018,9 @@ fn ev_kind(e: &Ev) -> String {
 }
 
 /// report ledger events accumulated so far
-pub fn flush_events(ctx: &mut Ctx, opname: &str, n: usize, lay: &'static str, fault: Option<FpKind>) {
+pub fn flush_events(ctx: &mut Ctx, opname: &str, n: usize, lay: &'static str, fault: Option<FpKind>) -> Vec<String> {
     let evs = ledger_take_events();
+    let kinds: Vec<String> = evs.iter().map(ev_kind).collect();
     for e in evs {
         let prop = match (&e, fault) {
             (Ev::DoubleDrop(_), Some(FpKind::Drop)) => "C05",
@@ -1012,6 +1039,7 @@ pub fn flush_events(ctx: &mut Ctx, opname: &str, n: usize, lay: &'static str, fa
         );
         ctx.count("ledger_events", 1);
     }
+    kinds
 }
 
 /// All read views must agree with the front-to-back observation.
@@ -1108,7 +1136,7 @@ pub fn check_views<const N: usize, P: Pad>(buf: &Buf<N, P>, obs: &Obs, ctx: &mut
     // to_vec: fresh clones in order (dropped right away)
     {
         let next = ledger_next_id();
-        let v = buf.to_vec();
+        let v = cb_to_vec(buf);
         let ok = v.len() == len
             && v.iter().enumerate().all(|(i, t)| {
                 let (id, val) = t.peek("to_vec");
@@ -1383,6 +1411,20 @@ pub fn step<const N: usize, P: Pad>(
     let arg_ids: Vec<u64> = env.arg_ids.iter().map(|x| x.0).collect();
 
     let ret = exec(h.buf(), op, env, fault);
+    match &ret {
+        Ret::Text(s) => trace_str(0xE1, s),
+        Ret::Panic { injected, .. } => trace_num(0xE2, *injected as u64),
+        Ret::Quad(a, b, c, d) => trace_num(0xE3, (*a as u64) ^ ((*b as u64) << 20) ^ ((*c as u64) << 21) ^ ((*d as u64) << 32)),
+        Ret::Bool(b) => trace_num(0xE4, *b as u64),
+        Ret::Res(r) => trace_num(0xE5, r.is_ok() as u64),
+        Ret::Opt(o) => trace_num(0xE6, o.is_some() as u64),
+        Ret::Ref(o) => trace_num(0xE7, o.is_some() as u64),
+        Ret::Ids(v) => trace_num(0xE8, v.len() as u64),
+        Ret::Unit => {}
+    }
+    for a in env.aux.iter() {
+        trace_num(0xE9, a.0 as u64 ^ ((a.1 as u64) << 20));
+    }
     let fkind = fault.map(|f| f.0).filter(|_| env.fp.fired);
     let mut out = StepOut {
         panicked: false,
@@ -1392,6 +1434,8 @@ pub fn step<const N: usize, P: Pad>(
         relocations: 0,
         pre_layout,
         resynced: false,
+        events: Vec::new(),
+        post: Vec::new(),
     };
 
     if !h.canaries_ok() {
@@ -1399,7 +1443,7 @@ pub fn step<const N: usize, P: Pad>(
     }
 
     let post = observe(h.buf_ref());
-    flush_events(ctx, op.name(), N, lay, fkind);
+    out.events.extend(flush_events(ctx, op.name(), N, lay, fkind));
 
     match &ret {
         Ret::Panic { injected: true, .. } => {
@@ -1474,6 +1518,9 @@ pub fn step<const N: usize, P: Pad>(
                     if prop != "C01" {
                         ctx.violation("C01", sig(op, N, lay, "wrong_return"), format!("{:?}: {}", op, e));
                     }
+                    if matches!(op, Op::ToVec | Op::CloneBuf) {
+                        ctx.violation("C12", sig(op, N, lay, "wrong_return"), format!("{:?}: {}; case={}", op, e, ctx.cur_case));
+                    }
                 }
             }
             // contents
@@ -1507,6 +1554,9 @@ pub fn step<const N: usize, P: Pad>(
                         );
                         if prop != "C01" {
                             ctx.violation("C01", sig(op, N, lay, "wrong_contents"), format!("{:?}: {}", op, e));
+                        }
+                        if matches!(op, Op::CloneFrom(_)) {
+                            ctx.violation("C12", sig(op, N, lay, "wrong_contents"), format!("{:?}: {}; case={}", op, e, ctx.cur_case));
                         }
                         *model = post.pairs();
                         out.resynced = true;
@@ -1599,10 +1649,11 @@ pub fn step<const N: usize, P: Pad>(
         }
         drop_holder(&mut sh);
     }
-    flush_events(ctx, op.name(), N, lay, fkind);
+    out.events.extend(flush_events(ctx, op.name(), N, lay, fkind));
+    out.post = model.clone();
     let live = ledger_live();
     let want = model.len() as u64;
-    let base_live = live_before - before.len() as u64; // elements alive outside this buffer
+    let base_live = live_before.saturating_sub(before.len() as u64); // elements alive outside this buffer
     if live != want + base_live {
         if live > want + base_live {
             // leaks are allowed only after a destructor panic or a leaked drain
